@@ -129,6 +129,19 @@ def eval_case(ctx, case):
         pol.forward = o_forward
     ctx.count("c15_eval_calls")
     rewards, actions = res["rewards"], res["actions"]
+    all_cands = None
+    if method == "sampling":
+        # the selection happens inside the policy call: replay the same random stream with select_best=False to see every sample
+        calls_best = list(calls)
+        calls.clear()
+        pol.forward = forward
+        torch.manual_seed(seed + 1)
+        try:
+            evaluate_policy(env, pol, ds, method=method, batch_size=bs, auto_batch_size=False, select_best=False, **kw)
+        finally:
+            pol.forward = o_forward
+        all_cands = list(calls)
+        calls[:] = calls_best
     if rewards.shape[0] != N or actions.shape[0] != N:
         ctx.evaluation()
         ctx.violation(dict(sig, q="rows"), f"{rewards.shape[0]} rewards / {actions.shape[0]} action rows for {N} instances", None)
@@ -161,6 +174,16 @@ def eval_case(ctx, case):
             if v:
                 ctx.violation(dict(sig, q="returned_infeasible", constraint=v[0][0]), f"instance {i}: the returned solution is infeasible on the original instance: {v[0]}", dict(actions=acts, inst=insts[i]))
                 return
+            if sel_best_inside and all_cands is not None and ci - 1 < len(all_cands):
+                ca2 = all_cands[ci - 1]["actions"]
+                cands = [strip(ca2[r].tolist(), name) for r in range(pos, ca2.shape[0], Bb)]
+                if any(c == acts for c in cands):  # same random stream: the returned rollout must be one of them
+                    cvals = [O.objective(insts[i], c) for c in cands if not any(x[1] == "violated" for x in O.violations(insts[i], c))]
+                    ctx.count("c15_candidates", len(cands))
+                    ctx.count("c15_sampling_replays")
+                    if cvals and got < max(cvals) - tol(max(cvals)):
+                        ctx.violation(dict(sig, q="not_best_of_k"), f"instance {i}: sampling with select_best reported {got}, the best of its own {len(cands)} samples (same random stream) is {max(cvals)}", dict(N=N, bs=bs))
+                        return
             if not sel_best_inside:
                 cands = [strip(ca[r].tolist(), name) for r in range(pos, rows, Bb)]
                 cvals = [O.objective(insts[i], c) for c in cands if not any(x[1] == "violated" for x in O.violations(insts[i], c))]
@@ -175,3 +198,88 @@ def eval_case(ctx, case):
                         return
             ctx.nontrivial_case(dict(i=insts[i], a=acts, m=method))
     ctx.sample(dict(case=case, avg=float(res["avg_reward"])))
+
+
+
+def model_val_case(ctx, case):
+    """POMO / SymNCO validation step: the per-instance metrics (max over starts, max over augmentations, best actions) must
+    be the maxima over THAT instance's rollouts, re-scored on the original instance."""
+    import rl4co.models as M
+
+    kind, name, n, B, seed = case["model"], case["env"], case["n"], case["B"], case["s"]
+    env, O, cfg = policies.env_for(name, n)
+    torch.manual_seed(seed)
+    S_, A_ = case["S"], case["A"]
+    kw = dict(batch_size=B, train_data_size=4, val_data_size=4, test_data_size=4)
+    if kind == "pomo":
+        model = M.POMO(env, policies.make("am_instnorm", env, seed=seed % 5), num_starts=S_, num_augment=A_, **kw)
+    else:
+        model = M.SymNCO(env, policies.make("symnco", env, seed=seed % 5), num_starts=S_, num_augment=A_, **kw)
+    model.eval()
+    td_in = env.generator(batch_size=[B])
+    insts = [O.extract(td_in, env.reset(td_in.clone()), b, env) for b in range(B)]
+    cap = {}
+    o_log = model.log_metrics
+
+    def log_metrics(out, phase, dataloader_idx=None):
+        cap["out"] = out
+        return {}
+
+    model.log_metrics = log_metrics
+    pol = model.policy
+    o_forward = pol.forward
+    taps = {}
+
+    def forward(td, *a, **k2):
+        out = o_forward(td, *a, **k2)
+        taps["actions"] = out["actions"].clone()
+        return out
+
+    pol.forward = forward
+    sig = dict(kind="model_val", model=kind, S_gt_1=S_ > 1, A_gt_1=A_ > 1)
+    try:
+        with torch.no_grad():
+            model.shared_step(td_in.clone(), 0, phase=case.get("phase", "val"))
+    except Exception as e:
+        ctx.evaluation()
+        ctx.violation(dict(sig, q="raises", exc=type(e).__name__), f"{kind}.shared_step(val) raised {type(e).__name__}: {str(e)[:200]}", dict(S=S_, A=A_, B=B))
+        return
+    finally:
+        pol.forward = o_forward
+        model.log_metrics = o_log
+    ctx.count("c15_model_val_calls")
+    out = cap["out"]
+    acts = taps["actions"]
+    R = acts.shape[0]
+    tol = lambda x: 1e-4 * max(1.0, abs(x))
+    vals = [[] for _ in range(B)]
+    for r in range(R):
+        vals[r % B].append(O.objective(insts[r % B], strip(acts[r].tolist(), name)))
+    best = [max(v) for v in vals]
+    key = "max_aug_reward" if A_ > 1 else ("max_reward" if S_ > 1 else "reward")
+    got = out.get(key)
+    for b in range(B):
+        ctx.evaluation()
+        ctx.count("c15_model_val_rows")
+    if got is None or got.numel() != B:
+        ctx.violation(dict(sig, q="metric_shape", key=key), f"{key} has shape {None if got is None else tuple(got.shape)} for {B} instances (one best-of-k value per instance expected)", dict(S=S_, A=A_, B=B))
+        return
+    g = got.reshape(B)
+    for b in range(B):
+        if abs(float(g[b]) - best[b]) > tol(best[b]):
+            ctx.violation(dict(sig, q="not_best_of_k", key=key), f"instance {b}: reported {key} {float(g[b])} != best of its own {len(vals[b])} rollouts {best[b]}", dict(S=S_, A=A_, B=B))
+            return
+    if S_ > 1 and out.get("max_reward") is not None:
+        mr = out["max_reward"]
+        want_shape = (B,) if A_ <= 1 else (B, A_)
+        if tuple(mr.shape) not in (want_shape, (B, 1) if A_ <= 1 else want_shape, (B, max(A_, 1))):
+            ctx.violation(dict(sig, q="metric_shape", key="max_reward"), f"max_reward has shape {tuple(mr.shape)}, expected one value per (instance, augmentation): {want_shape}", dict(S=S_, A=A_, B=B))
+            return
+    ba = out.get("best_aug_actions") if A_ > 1 else out.get("best_multistart_actions")
+    if ba is not None and ba.shape[0] == B and ba.dim() == 2:
+        for b in range(B):
+            v = O.objective(insts[b], strip(ba[b].tolist(), name))
+            if abs(v - best[b]) > tol(best[b]):
+                ctx.violation(dict(sig, q="best_actions"), f"instance {b}: the reported best actions have objective {v}, the best rollout of that instance has {best[b]}", dict(S=S_, A=A_, B=B))
+                return
+    ctx.nontrivial_case(dict(c=case))
